@@ -933,12 +933,24 @@ fn realfile_passwords(ctx: &mut Ctx, base: &Case, env: &Env) -> Result<(), Strin
         "password".to_string(),
         password.replace('-', "_"),
     ]);
+    // one scratch buffer, as a password prompt loop has: the right password is typed into it (and used), then a wrong
+    // one of the same length lands in the very same bytes
+    let mut scratch = String::with_capacity(password.len() + 64);
     for w in wrong {
         if w == password {
             continue;
         }
+        let via_scratch = w.len() == password.len();
+        if via_scratch {
+            scratch.clear();
+            scratch.push_str(&password);
+            let _ = simcore::guarded(|| env.subj.load_encrypted_file(&path, &scratch));
+            scratch.clear();
+            scratch.push_str(&w);
+        }
+        let attempt: &str = if via_scratch { &scratch } else { &w };
         arm_cpu_watchdog(EVAL_CPU_SECONDS);
-        let r = simcore::guarded(|| env.subj.load_encrypted_file(&path, &w));
+        let r = simcore::guarded(|| env.subj.load_encrypted_file(&path, attempt));
         arm_cpu_watchdog(0);
         ctx.stats.inc("evals");
         ctx.stats.inc("config.realfile-wrong-password");
